@@ -52,9 +52,24 @@ pub fn check_trait<S: Attack>(c: &Case, ctx: &mut CaseCtx) -> Result<(), Failure
     let tier = current_tier();
     // the prover-built forgeries work on polynomials without degree bounds: strip them for that mode
     let mut scn_forge = c.scn.clone();
-    if c.mode == 5 {
+    if c.mode == 5 && S::NAME != "marlin" {
         for p in scn_forge.polys.iter_mut() {
             p.bound = 0;
+        }
+    }
+    if c.mode == 5 && S::NAME == "marlin" {
+        // Marlin's forgery is about degree-bounded, non-hiding polynomials opened alone
+        if scn_forge.key.bounds.is_none() {
+            scn_forge.key.bounds = Some(vec![(c.sel >> 3) as u16, (c.sel >> 19) as u16]);
+        }
+        for p in scn_forge.polys.iter_mut() {
+            if p.bound == 0 {
+                p.bound = 1 + ((c.sel >> 9) & 0xffe) as u16;
+            }
+            p.hiding = 0;
+        }
+        for l in scn_forge.labels.iter_mut() {
+            l.subset = 1; // one polynomial per point label where the model allows it
         }
     }
     let Ok(sess) = Session::<S>::build(&scn_forge, tier) else {
@@ -218,7 +233,7 @@ pub fn check_trait<S: Attack>(c: &Case, ctx: &mut CaseCtx) -> Result<(), Failure
                 ctx.label("forgery_refused_by_prover");
                 return Ok(());
             };
-            if f.claimed == values {
+            if f.point.is_none() && f.claimed == values {
                 ctx.label("forgery_claims_true_values");
                 return Ok(());
             }
@@ -229,7 +244,19 @@ pub fn check_trait<S: Attack>(c: &Case, ctx: &mut CaseCtx) -> Result<(), Failure
             ctx.nontrivial = true;
             desc["forgery"] = json!(f.desc);
             ctx.derived = Some(desc);
-            let r = present(f.claimed.clone(), &f.proof);
+            let r = match &f.point {
+                // the forgery chose its own point: present it there (single-point verifier, or a one-label batch)
+                Some(z2) => {
+                    ctx.label("forgery_at_its_own_point");
+                    if via_batch {
+                        let g2 = crate::session::Group { label: g.label.clone(), value_idx: g.value_idx, point: z2.clone(), polys: g.polys.clone() };
+                        sess.batch_check_group(&g2, &order, &f.claimed, &f.proof, &mut sess.sponge(), sel)
+                    } else {
+                        sess.check_idx(&order, z2, f.claimed.clone(), &f.proof, &mut sess.sponge(), sel)
+                    }
+                }
+                None => present(f.claimed.clone(), &f.proof),
+            };
             expect_reject(ctx, P, S::NAME, entry, "prover_built_forgery", &r, || f.desc.clone())
         }
         6 => {
